@@ -533,7 +533,7 @@ def run_rules(ctx, res):
     from ..report import Result as _R8
     r8 = _R8("C08", "quick", "other")
     _c08_rules(syn, r8)
-    v8 = [v for v in r8.violations if v.rule in ("R-C08-table", "R-C08-exh")]
+    v8 = [v for v in r8.violations if v.rule in ("R-C08-table", "R-C08-exh") or (v.rule == "floor" and ("tokenizer anchors" in v.key or "R-C08-table" in v.key or "R-C08-exh" in v.key))]
     res.inst(SKIP, "lexer (C08 table and reserved words)", "", True, "%d violations" % len(v8))
     for v in v8[:4]:
         res.violate(SKIP, "c08|" + v.key, v.where, "whether a field name is the placeholder `_` or an identifier is decided by the tokenizer; C08's table comparison fails: " + v.msg[:300])
